@@ -338,8 +338,8 @@ func (in *Interp) callSSA0(caller *frame, fn *ssa.Function, args []Value, env []
 		panic(pathEnd{"budget", "call depth exceeded in " + fn.String()})
 	}
 	defer func() { in.depth-- }()
-	if !in.funcsSeen[fn.String()] {
-		in.funcsSeen[fn.String()] = true
+	if n := fnName(fn); !in.funcsSeen[n] {
+		in.funcsSeen[n] = true
 	}
 	fi := in.info(fn)
 	fr := &frame{in: in, caller: caller, fn: fn, info: fi, env: make([]Value, fi.n)}
@@ -929,7 +929,7 @@ func (in *Interp) slice(instr *ssa.Slice, x, lo, hi, max Value) Value {
 		if l < 0 || h > n || l > h {
 			panic(in.runtimeError(fmt.Sprintf("slice bounds out of range [%d:%d] with length %d", l, h, n)))
 		}
-		if x.opaque && (l != 0 || h != n) {
+		if x.opaque && (l != 0 || h != n) && h > x.exact {
 			panic(unsupported("slice of opaque string"))
 		}
 		return x.Slice(l, h)
